@@ -26,6 +26,9 @@ def obligations(tier):
         Ob('E.rate', 'E', 'unchanged data (one file of 130 KB..1.2 MB, 4096..16384-byte chunks) snapshotted twice under different rate limits: the second run uploads nothing and references the same chunk list',
            '4 sizes x 2 first limits x 5 second limits x same/shared key x 2 concurrency = 160', ['replicat.repository:Repository.snapshot', 'replicat.utils.adapters:gclmulchunker.__call__'],
            module=Hh, func='e_dedup_rate', timeout=900, shards=4),
+        Ob('E.remote', 'E', 'the same commands through the real S3-compatible and B2 adapters against the fake services (B2: bucket named or given by id, key unrestricted or restricted; every upload a new version; the response to the j-th upload lost after the service stored it): init, snapshot F0, F1, F0 again (uploads nothing), delete the first, restore the listed ones, clean (objects == referenced)',
+           '2 adapters x 4 bucket spellings x 9 lost-response positions x concurrency {1,3} x encrypted/not = 288', ['replicat.backends.b2:B2.exists', 'replicat.backends.b2:B2.delete', 'replicat.backends.b2:B2.upload_stream', 'replicat.backends.s3c:S3Compatible.exists', 'replicat.repository:Repository.snapshot', 'replicat.repository:Repository.delete_snapshots'],
+           module='vt.harness.remote', func='e_remote_history', timeout=900, shards=4),
         Ob('E.hist', 'E', 'any 3 snapshots by A/B/C: per-family chunk objects == distinct referenced chunks; repeating the first uploads nothing',
            '9^3 = 729 histories', ['replicat.repository:Repository.snapshot'], module=Hh, func='e_dedup_hist', timeout=900, shards=4),
     ]
